@@ -59,6 +59,10 @@ def shards(tier, seed):
                     out.append(dict(leg="multi", kinds=list(kinds), n=n, part=part, nparts=nparts))
     for kinds in itertools.product(("cat", "bin"), repeat=2):
         out.append(dict(leg="broadcast", kinds=list(kinds)))
+    for n in (2, 3) if tier == "quick" else (2, 3, 4):
+        nparts = {2: 1, 3: 6, 4: 48}[n]
+        for part in range(nparts):
+            out.append(dict(leg="mixed", n=n, part=part, nparts=nparts, tier=tier))
     return out
 
 
@@ -223,9 +227,57 @@ def check_multi(res, kinds, bys, shape=None, chunks=None, method=None, broadcast
         res.outcomes["ok"] += 1
 
 
+def check_mixed(res, bys, chunks, sort):
+    """Two categorical groupers: the first is a dask array with expected_groups, the second stays in memory WITHOUT
+    expected_groups (its labels are whatever occurs).  Oracle: the eager call on the same data."""
+    import dask.array as da
+
+    n = len(bys[0])
+    full = [np.array(t, dtype=float) for t in bys]
+    prov = 2.0 ** np.arange(n)
+    V = np.stack([prov, prov * 2.0**n])
+    kw = dict(func="sum", fill_value=-1.0, expected_groups=(np.array([0.0, 1.0, 2.0]), None), sort=sort)
+    eager = e1.call_reduce(V, *full, **kw)
+    out = e1.call_reduce(da.from_array(V, chunks=((2,), chunks)), da.from_array(full[0], chunks=(chunks,)), full[1], **kw)
+    res.evaluations += 1
+    res.states += 1
+    res.transitions += 2
+    case = dict(leg="mixed", bys=[list(t) for t in bys], chunks=list(chunks), sort=sort)
+    tags = dict(leg2="mixed", sort=sort, nblocks=len(chunks))
+    if eager.kind != "ok" or out.kind == "refused":
+        res.outcomes[f"{out.kind}/{eager.kind}"] += 1
+        return
+    if out.kind == "error":
+        res.outcomes[f"error:{out.exc}"] += 1
+        res.violate("multi-error", case, out.brief(), "a result", tags=dict(tags, kind="error", exc=out.exc), size=n * 10)
+        return
+    res.compared += 1
+    same = (np.asarray(out.result).shape == np.asarray(eager.result).shape and np.array_equal(out.result, eager.result, equal_nan=True)
+            and all(list(np.asarray(a).tolist()) == list(np.asarray(b).tolist()) or (len(a) == len(b) and np.array_equal(np.asarray(a, dtype=float), np.asarray(b, dtype=float), equal_nan=True))
+                    for a, b in zip(out.groups, eager.groups)))
+    if not same:
+        res.outcomes["mismatch"] += 1
+        res.violate("multi-mixed-numpy-dask", case, dict(result=out.result, labels=[list(np.asarray(g).tolist()) for g in out.groups]),
+                    dict(eager=eager.result, labels=[list(np.asarray(g).tolist()) for g in eager.groups]), tags=dict(tags, kind="value"), size=n * 10 + len(chunks))
+    else:
+        res.outcomes["ok"] += 1
+
+
 def run_shard(shard):
     e1.reset_flox_caches()
     res = Result()
+    if shard["leg"] == "mixed":
+        n = shard["n"]
+        second = (7.0, 5.0, NAN) if (n <= 2 or shard.get("tier") != "quick") else (7.0, 5.0)
+        firsts = [t for i, t in enumerate(itertools.product((0.0, 1.0, NAN), repeat=n)) if i % shard.get("nparts", 1) == shard.get("part", 0)]
+        for t1 in firsts:
+            for t2 in itertools.product(second, repeat=n):
+                for ch in space.compositions(n):
+                    for sort in (True, False):
+                        check_mixed(res, [t1, t2], ch, sort)
+                        res.nontrivial += 1 if len(ch) > 1 else 0
+        res.sample(dict(leg="mixed", n=n, groupers=["dask with expected_groups", "numpy without expected_groups"]))
+        return res
     if shard["leg"] == "bins":
         edges, how = EDGES[shard["edges"]], shard["how"]
         for n in range(1, shard["n"] + 1):
@@ -279,6 +331,9 @@ def replay(payload):
 
     res = Result()
     c = payload["case"]
+    if c["leg"] == "mixed":
+        check_mixed(res, [tuple(unjson_float(t)) for t in c["bys"]], tuple(c["chunks"]), c["sort"])
+        return res
     if c["leg"] == "bins":
         check_bins(res, c["edges"], c["how"], tuple(unjson_float(c["values"])), chunks=tuple(c["chunks"]) if c.get("chunks") else None,
                    method=c.get("method"), labels_dask=c.get("labels_dask", False))
